@@ -10,6 +10,7 @@ import TypedPathVerif.Model.Path
 import TypedPathVerif.Spec.StdSpec
 import TypedPathVerif.Spec.StdBuf
 import TypedPathVerif.Spec.HashSpec
+import TypedPathVerif.Spec.Utf8
 
 open TP
 
@@ -231,6 +232,12 @@ def step (line : String) : String :=
     match parseEnc e, parseHex a with
     | some e, some a => " ".intercalate ((C05.hashSpec e a).map hexOf)
     | _, _ => badOp
+  | ["stdutf8", h] =>
+    -- the *specification* of well-formed UTF-8 (Spec/Utf8.lean); the harness answers with
+    -- core::str::from_utf8
+    match parseHex h with
+    | some b => showBool (Utf8.validB b)
+    | none => badOp
   | ["stdcomps", h] =>
     -- the *specification* (Spec/StdSpec.lean); the harness answers with real std::path
     match parseHex h with
